@@ -29,8 +29,9 @@ Shape(e) ==
   CASE e.op = "rename" -> "rename:" \o e.from \o ">" \o e.to
     [] e.op = "dirsync" -> "dirsync"
     [] OTHER -> e.op \o ":" \o e.name
-ShapeOut == (pc = 1 /\ ~crashed.on) =>
-  PrintT(<<"PROTOCOL", ToJson([routine |-> Routine, save |-> n, steps |-> [i \in 1..Len(proto) |-> Shape(proto[i])]])>>)
+ShapeOut == (n = 1 /\ pc = 1 /\ ~crashed.on) =>
+  \A k \in 1..MaxSaves : \A p \in Protocols(k, fs) :
+     PrintT(<<"PROTOCOL", ToJson([routine |-> Routine, save |-> k, steps |-> [i \in 1..Len(p) |-> Shape(p[i])]])>>)
 
 (* ---- histories ---- *)
 DriverRoutine == IF Routine \in {"lru", "lru_inplace", "lru_fixed"} THEN "lru" ELSE Routine
